@@ -11,7 +11,8 @@ Evs(xs) == [i \in 1..Len(xs) |-> [k |-> xs[i].k, p |-> xs[i].p, ch |-> xs[i].ch,
 VoicesOf(e) == CASE e.op \in {"play_Bar", "play_Track"} -> <<TrackVoice(e.prog.tracks[1])>>
                  [] OTHER -> [i \in 1..Len(e.prog.tracks) |-> TrackVoice(e.prog.tracks[i])]
 Prelude(e) == IF e.op \in {"play_Tracks", "play_Composition"}
-              THEN [i \in 1..Len(e.prog.tracks) |-> SEv("instr", IF e.prog.tracks[i].instr.kind = "midi" THEN e.prog.tracks[i].instr.nr ELSE 1, i, 0)]
+              THEN [i \in 1..Len(e.prog.tracks) |-> SEv("instr", IF e.prog.tracks[i].instr.kind = "midi" THEN e.prog.tracks[i].instr.nr ELSE 1,
+                                                          IF "chans" \in DOMAIN e.in THEN e.in.chans[i] ELSE i, 0)]
               ELSE <<>>
 Tol == 3
 IsInstr(x) == x.k = "instr"
